@@ -19,6 +19,8 @@ const N_TERMS: usize = 8;
 struct Table {
     grid: [[f32; N_TERMS]; N_TERMS],
     calls: Rc<RefCell<Vec<(u32, u32)>>>,
+    /// per call: does the first / second term handed in belong to the twin instance (twin names start with "twin")
+    owners: Rc<RefCell<Vec<(bool, bool)>>>,
     /// the ids of the ontology in use; a term id is mapped to its position here
     ids: Rc<Vec<u32>>,
 }
@@ -33,7 +35,7 @@ fn slot(ids: &[u32], id: u32) -> usize {
 
 impl Table {
     fn new() -> Table {
-        Table { grid: [[f32::NAN; N_TERMS]; N_TERMS], calls: Rc::new(RefCell::new(vec![])), ids: CURRENT_IDS.with(|c| c.borrow().clone()) }
+        Table { grid: [[f32::NAN; N_TERMS]; N_TERMS], calls: Rc::new(RefCell::new(vec![])), owners: Rc::new(RefCell::new(vec![])), ids: CURRENT_IDS.with(|c| c.borrow().clone()) }
     }
 }
 
@@ -42,6 +44,7 @@ impl Similarity for Table {
         use hpo::annotations::AnnotationId;
         let (x, y) = (a.id().as_u32(), b.id().as_u32());
         self.calls.borrow_mut().push((x, y));
+        self.owners.borrow_mut().push((a.name().starts_with("twin"), b.name().starts_with("twin")));
         self.grid[slot(&self.ids, x)][slot(&self.ids, y)]
     }
 }
@@ -64,6 +67,10 @@ fn reference(comb: StandardCombiner, m: &[Vec<f32>], r: usize, c: usize) -> f64 
 }
 
 fn close(x: f32, want: f64) -> bool {
+    if want.is_infinite() {
+        // infinite similarities are legal values of a user-supplied function: maxima, sums and means of IEEE values
+        return x as f64 == want;
+    }
     x.is_finite() && (x as f64 - want).abs() <= 1e-6 + 1e-6 * want.abs()
 }
 
@@ -129,15 +136,24 @@ fn check_matrix(ont: &Ontology, m: &[Vec<f32>], r: usize, c: usize, a_ids: &[u32
         if got_calls != want_calls {
             return v("GroupSimilarity::calculate", "term similarity is not evaluated exactly once for every (a in A, b in B) in that argument order", format!("calls {calls:?}"));
         }
-        // 1b. the second set living on another Ontology instance with the same content (a clone, the same file
-        // loaded twice): the combination is defined on the terms, not on the instance
+        // 1b. the second set living on another Ontology instance with the same content (another release of the same terms: same ids, other names): the combination is defined on the terms, not on the instance
         if let Some(tw) = &twin {
             let b2 = set(tw, b_ids);
+            table.owners.borrow_mut().clear();
             let s1b = a.similarity(&b2, table.clone(), comb);
+            // the term similarity must be handed the terms of the two sets themselves: the second argument is
+            // the twin's term (its data - here its name - may differ from the first instance's term of that id)
+            if table.owners.borrow().iter().any(|o| *o != (false, true)) {
+                return v("HpoSet::similarity", "the term similarity is not called with the terms of the two sets (a term was looked up in the other set's ontology)", format!("{comb:?} matrix {m:?}"));
+            }
             if s1b.to_bits() != s1.to_bits() {
                 return v("HpoSet::similarity", "result differs when the second set belongs to another Ontology instance with the same content", format!("{comb:?} matrix {m:?}: {s1b} vs {s1}"));
             }
+            table.owners.borrow_mut().clear();
             let s2b = GroupSimilarity::new(comb, table.clone()).calculate(&a, &b2);
+            if table.owners.borrow().iter().any(|o| *o != (false, true)) {
+                return v("GroupSimilarity::calculate", "the term similarity is not called with the terms of the two sets (a term was looked up in the other set's ontology)", format!("{comb:?} matrix {m:?}"));
+            }
             if s2b.to_bits() != s1.to_bits() {
                 return v("GroupSimilarity::calculate", "result differs when the second set belongs to another Ontology instance with the same content", format!("{comb:?} matrix {m:?}: {s2b} vs {s1}"));
             }
@@ -230,7 +246,14 @@ pub fn run(ctx: &mut Ctx) {
         f.edges.push((*i, 1));
     }
     let ont = drive::build(&f, Mode::Minimal).expect("flat ontology must build");
-    TWIN.with(|t| *t.borrow_mut() = Some(Rc::new(drive::build(&f, Mode::Minimal).expect("flat ontology must build"))));
+    let twin_of = |f: &Facts| -> Facts {
+        let mut g = f.clone();
+        for t in g.terms.iter_mut() {
+            t.name = format!("twin {}", t.name);
+        }
+        g
+    };
+    TWIN.with(|t| *t.borrow_mut() = Some(Rc::new(drive::build(&twin_of(&f), Mode::Minimal).expect("flat ontology must build"))));
 
     let alpha4: [f32; 4] = [0.0, 0.25, 1.0, -0.5];
     let alpha3: [f32; 3] = [0.0, 0.25, 1.0];
@@ -296,6 +319,48 @@ pub fn run(ctx: &mut Ctx) {
         }
     }
 
+    // ---- infinite scores (1/distance of identical terms, ln of a zero similarity): all matrices up to 2x2 over
+    // {1/4, 1, +inf} and over {1/4, -1/2, -inf} (the two signs are not mixed: inf - inf has no value)
+    for (tag, alphabet) in [("plus-infinity", [0.25f32, 1.0, f32::INFINITY]), ("minus-infinity", [0.25f32, -0.5, f32::NEG_INFINITY])] {
+        for r in 1..=2usize {
+            for c in 1..=2usize {
+                let cells = r * c;
+                let total: u64 = 3u64.pow(cells as u32);
+                ctx.space(&format!("matrices/{tag}/{r}x{c}"), &format!("all {total} matrices of shape {r}x{c} over {alphabet:?}; id assignments as above"));
+                if !ctx.take() {
+                    continue;
+                }
+                for idx in 0..total {
+                    ctx.state();
+                    let mut k = idx;
+                    let mut m = vec![vec![0f32; c]; r];
+                    for i in 0..r {
+                        for j in 0..c {
+                            m[i][j] = alphabet[(k % 3) as usize];
+                            k /= 3;
+                        }
+                    }
+                    if m.iter().flatten().any(|v| v.is_infinite()) {
+                        ctx.nontrivial();
+                    }
+                    let lo: Vec<u32> = ids[..r].to_vec();
+                    let hi: Vec<u32> = ids[4..4 + c].to_vec();
+                    for (a_ids, b_ids, what) in [(lo.clone(), hi.clone(), "infinite scores: A below B"), (ids[4..4 + r].to_vec(), ids[..c].to_vec(), "infinite scores: A above B")] {
+                        ctx.exec();
+                        ctx.validated();
+                        ctx.transitions(27);
+                        match guard(|| check_matrix(&ont, &m, r, c, &a_ids, &b_ids, what)) {
+                            Ok(None) => {}
+                            Ok(Some((site, sig, det))) => ctx.violation(&site, &sig, json!({"rows": r, "cols": c, "matrix": format!("{m:?}"), "A": a_ids, "B": b_ids, "difference": det})),
+                            Err(p) => ctx.violation("HpoSet::similarity", "panics", json!({"rows": r, "cols": c, "matrix": format!("{m:?}"), "A": a_ids, "B": b_ids, "observed": p})),
+                        }
+                    }
+                }
+                ctx.sample(|| json!({"shape": [r, c], "alphabet": format!("{alphabet:?}"), "matrices": total}));
+            }
+        }
+    }
+
     // ---- the same sweep on term ids that collide under plausible key-packing schemes of a cache
     // (a*10^6+b, a<<16|b, a<<20|b): (2,3000005)~(5,5), (2,70000)~(3,4464), (2,1100000)~(3,51424)
     let ids2: Vec<u32> = vec![2, 3, 5, 4464, 51_424, 70_000, 1_100_000, 3_000_005];
@@ -306,7 +371,7 @@ pub fn run(ctx: &mut Ctx) {
         f2.edges.push((*i, 1));
     }
     let ont2 = drive::build(&f2, Mode::Minimal).expect("flat ontology must build");
-    TWIN.with(|t| *t.borrow_mut() = Some(Rc::new(ont2.clone())));
+    TWIN.with(|t| *t.borrow_mut() = Some(Rc::new(drive::build(&twin_of(&f2), Mode::Minimal).expect("flat ontology must build"))));
     CURRENT_IDS.with(|c| *c.borrow_mut() = Rc::new(ids2.clone()));
     let b_choices: [[u32; 3]; 4] = [[5, 3_000_005, 70_000], [4464, 70_000, 3_000_005], [51_424, 1_100_000, 3_000_005], [5, 4464, 51_424]];
     for r in 1..=3usize {
@@ -384,7 +449,7 @@ pub fn run(ctx: &mut Ctx) {
                 return;
             }
         };
-        TWIN.with(|t| *t.borrow_mut() = drive::from_bytes(&bytes).ok().and_then(|r| r.ok()).map(Rc::new));
+        TWIN.with(|t| *t.borrow_mut() = drive::from_bytes(&crate::encode::encode(&twin_of(&f3), &crate::encode::EncOpts::v(3))).ok().and_then(|r| r.ok()).map(Rc::new));
         let max3 = if thorough { 3 } else { 2 };
         for r in 0..=max3 {
             for c in 0..=max3 {
